@@ -1,8 +1,9 @@
 /-
-C29: `httpHeaderParseInt` (src/HttpHeaderTools.cc) = `atoi` + "zero that does not start with a digit is a failure".
+C29: `httpHeaderParseInt` (src/HttpHeaderTools.cc): `strtol` with an `int` range check + "zero that does not start with a
+digit is a failure".
 
-`atoi(s)` is modelled as glibc implements it: `(int) strtol(s, NULL, 10)` — skip `isspace`, optional sign, decimal digits,
-clamp to `LONG_MIN..LONG_MAX`, then the conversion to `int` keeps the low `INT_BITS` bits (two's complement).
+`strtol(s, &end, 10)` is modelled as glibc implements it: skip `isspace`, optional sign, decimal digits; no digits =
+no conversion (`end == start`); a magnitude beyond `long` saturates and sets `ERANGE`.
 The C pointer `start` is the suffix of the field value beginning at the pointer.
 -/
 import SquidModel.Cc.StrList
@@ -23,22 +24,18 @@ def skipSign (s : Bytes) : Bytes :=
   | c :: r => if c = 45 ∨ c = 43 then r else s
   | [] => []
 
-/-- glibc `strtol(s, NULL, 10)` -/
-def strtolC (s : Bytes) : Int :=
+def INT_MIN : Int := - 2 ^ (Gen.CcDirectives.INT_BITS - 1)
+
+/-- glibc `strtol(s, &end, 10)`: (`end != start`, result, `errno == ERANGE`) -/
+def strtolC (s : Bytes) : Bool × Int × Bool :=
   let s1 := s.dropWhile isSpaceC
   let neg := s1.head? = some 45
   let ds := (skipSign s1).takeWhile isDigitC
-  if ds = [] then 0
+  if ds = [] then (false, 0, false)
   else
     let mag : Int := decVal ds
-    if neg then (if -mag < LONG_MIN then LONG_MIN else -mag)
-    else (if mag > LONG_MAX then LONG_MAX else mag)
-
-/-- conversion `long -> int` (implementation-defined: modulo 2^INT_BITS, gcc) -/
-def toIntC (l : Int) : Int :=
-  (l + 2 ^ (Gen.CcDirectives.INT_BITS - 1)) % 2 ^ Gen.CcDirectives.INT_BITS - 2 ^ (Gen.CcDirectives.INT_BITS - 1)
-
-def atoiC (s : Bytes) : Int := toIntC (strtolC s)
+    if neg then (if -mag < LONG_MIN then (true, LONG_MIN, true) else (true, -mag, false))
+    else (if mag > LONG_MAX then (true, LONG_MAX, true) else (true, mag, false))
 
 /-- `xisdigit(*start)` (the terminating NUL is not a digit) -/
 def headIsDigit (start : Bytes) : Bool :=
@@ -46,9 +43,14 @@ def headIsDigit (start : Bytes) : Bool :=
   | c :: _ => isDigitC c
   | [] => false
 
-/-- `httpHeaderParseInt(start, &value)`: (return value ≠ 0, what `*value` holds afterwards) -/
+/-- `httpHeaderParseInt(start, &value)`: (return value ≠ 0, what `*value` holds afterwards).
+`*value = 0; res = strtol(start, &end, 10); if (end == start || errno == ERANGE || res < INT_MIN || res > INT_MAX) return 0;
+*value = (int) res; if (!*value && !xisdigit(*start)) return 0; return 1;` -/
 def parseInt (start : Bytes) : Bool × Int :=
-  if atoiC start = 0 ∧ headIsDigit start = false then (false, atoiC start) else (true, atoiC start)
+  let r := strtolC start
+  if r.1 = false ∨ r.2.2 = true ∨ r.2.1 < INT_MIN ∨ r.2.1 > INT_MAX then (false, 0)
+  else if r.2.1 = 0 ∧ headIsDigit start = false then (false, r.2.1)
+  else (true, r.2.1)
 
 /-! ### `%d` -/
 
